@@ -60,7 +60,8 @@ def run(subdir, module, cfg, workers=None, mode="bfs", sim=None, depth=None, tim
     jopts = "-Xss1g"
     if deque:
         jopts += " -Dtlc2.tool.queue.IStateQueue=StateDeque"
-    cmd = ["java", "-XX:+UseParallelGC", "-Xmx" + xmx, "-Xss1g", "-cp", JAR, "tlc2.TLC",
+    libs = ":".join(os.path.join(SPEC, x) for x in sorted(os.listdir(SPEC)) if os.path.isdir(os.path.join(SPEC, x)))
+    cmd = ["java", "-XX:+UseParallelGC", "-Xmx" + xmx, "-Xss1g", "-DTLA-Library=" + libs, "-cp", JAR, "tlc2.TLC",
            "-metadir", meta, "-noGenerateSpecTE", "-config", cfg_path]
     if deque:
         cmd.insert(1, "-Dtlc2.tool.queue.IStateQueue=StateDeque")
@@ -141,7 +142,9 @@ def require_coverage(res, actions):
 
 
 def sany(path):
-    p = sh(["java", "-cp", JAR, "tla2sany.SANY", os.path.basename(path)], cwd=os.path.dirname(path), check=False)
+    libs = ":".join(os.path.join(SPEC, x) for x in sorted(os.listdir(SPEC)) if os.path.isdir(os.path.join(SPEC, x)))
+    p = sh(["java", "-DTLA-Library=" + libs, "-cp", JAR, "tla2sany.SANY", os.path.basename(path)],
+           cwd=os.path.dirname(path), check=False)
     if p.returncode != 0 or "Semantic errors" in (p.stdout or "") or "Parse Error" in (p.stdout or ""):
         raise ToolError("SANY rejects %s:\n%s" % (path, (p.stdout or "")[-2000:]))
 
